@@ -14,6 +14,29 @@ typedef ob::DubinsStateSpace RealSpace;
 typedef ob::DubinsStateSpace::DubinsPath PathT;
 typedef ob::DubinsMotionValidator Validator;
 #endif
+// Environment stubs for the curve solvers (overriding the repo definitions at link time): a curve obtained by calling
+// the solver directly is NOT marked as the curve interpolate() uses (for a symmetric Dubins space they differ).
+#if RS
+ob::ReedsSheppStateSpace::ReedsSheppPath ob::ReedsSheppStateSpace::reedsShepp(const ob::State *, const ob::State *) const
+{
+    ReedsSheppPath p;
+    p.length_[1] = 111.0;
+    return p;
+}
+#else
+ob::DubinsStateSpace::DubinsPath ob::DubinsStateSpace::dubins(const ob::State *, const ob::State *) const
+{
+    DubinsPath p;
+    p.length_[1] = 111.0;
+    return p;
+}
+ob::DubinsStateSpace::DubinsPath ob::DubinsStateSpace::dubins(const ob::State *, const ob::State *, double)
+{
+    DubinsPath p;
+    p.length_[1] = 111.0;
+    return p;
+}
+#endif
 #ifndef ND
 #define ND 4
 #endif
@@ -31,8 +54,9 @@ struct StubSp : RealSpace
     void interpolate(const ob::State *, const ob::State *, double t, bool &firstTime, PathT &path, ob::State *out) const override
     {
         ++g_calls;
-        if (firstTime) { ++g_first_calls; firstTime = false; g_path = &path; }
-        else if (g_path != &path) g_bad = 1;      // the cached path object must be the one computed on the first call
+        // the curve the validator samples must be the one interpolate() itself computes (lazily, on the first call)
+        if (firstTime) { ++g_first_calls; firstTime = false; g_path = &path; path.length_[1] = 424242.0; }
+        else if (g_path != &path || path.length_[1] != 424242.0) g_bad = 1;
         int tag = -1;
         for (int j = 0; j <= MAXND; ++j)
             if (j <= g_nd && t == g_T[j]) tag = j;
@@ -55,7 +79,7 @@ struct StubSVC : ob::StateValidityChecker
     bool isValid(const ob::State *s) const override
     {
         int tag = static_cast<const TState *>(s)->tag;
-        if (tag < 0 || tag > g_nd) { g_bad = 1; return true; }
+        if (tag < 0 || tag > MAXND) { g_bad = 1; return true; }
         if (g_seen[tag] < 200) g_seen[tag]++;
         return g_valid[tag];
     }
@@ -81,32 +105,23 @@ extern "C" void harness_curve_validator()
         g_seen[j] = 0;
         g_T[j] = (double)j / (double)MAXND;
     }
-#if ND == 0
-    g_valid[0] = 1;
-#endif
     TState s1, s2, lv;
-    s1.t = 0; s1.tag = 0; s2.t = 1; s2.tag = g_nd; lv.t = -7; lv.tag = -7;
+    s1.t = 0; s1.tag = 0; s2.t = 1; s2.tag = MAXND; lv.t = -7; lv.tag = -7;   // for nd == 0 (distance-0 pair) the end state still has its own validity bit
     bool expect = true;
     int firstBad = -1;
     for (int j = 1; j <= MAXND; ++j)
-        if (j <= g_nd && !g_valid[j] && firstBad < 0) { expect = false; firstBad = j; }
-#if ND == 0
-    expect = true;
-#endif
+        if (!g_valid[j] && firstBad < 0) { expect = false; firstBad = j; }
     bool r2 = mv->Validator::checkMotion(&s1, &s2);
     VT_CHECK(r2 == expect, "fast form: valid exactly when every subdivision point and the end state are valid");
-    VT_CHECK(!g_bad, "fast form interpolates only at j/nd points of one cached curve");
-    VT_CHECK(g_calls == 0 || g_first_calls == 1, "fast form computes the curve once");
+    VT_CHECK(!g_bad, "fast form interpolates only at j/nd points of the curve interpolate() computes");
     if (r2)
     {
         for (int j = 1; j <= MAXND; ++j)
-            if (j <= g_nd) VT_CHECK(g_seen[j] == 1, "fast form checks every subdivision point exactly once on success");
+            VT_CHECK(g_seen[j] == 1, "fast form checks every subdivision point exactly once on success");
         vt_cover("fast form valid");
     }
-#if ND > 0
     else
         vt_cover("fast form invalid");
-#endif
     VT_CHECK(mv->valid_ + mv->invalid_ == 1 && mv->valid_ == (r2 ? 1u : 0u), "fast form advances exactly one counter");
     VT_CHECK(g_alloc == g_free, "fast form frees its temporary state");
     g_calls = g_first_calls = 0;
@@ -115,8 +130,7 @@ extern "C" void harness_curve_validator()
     bool r1 = mv->Validator::checkMotion(&s1, &s2, last);
     VT_CHECK(r1 == expect, "lastValid form: same verdict");
     VT_CHECK(r1 == r2, "both forms agree");
-    VT_CHECK(!g_bad, "lastValid form interpolates only at j/nd points of one cached curve");
-    VT_CHECK(g_calls == 0 || g_first_calls == 1, "lastValid form computes the curve once");
+    VT_CHECK(!g_bad, "lastValid form interpolates only at j/nd points of the curve interpolate() computes");
     if (r1)
         VT_CHECK(last.second == -3.0 && lv.tag == -7 && lv.t == -7, "lastValid storage untouched on success");
     else
